@@ -65,6 +65,8 @@ func c02CheckStep(prefix string, r *v1beta1.Rollout, pre, post *v1beta1.CommonSt
 	if post.CurrentStepIndex != pre.CurrentStepIndex {
 		verifrt.Cover("index-advanced")
 		verifrt.Assert(preS == v1beta1.CanaryStepStateReady && post.CurrentStepIndex == pre.CurrentStepIndex+1 && postS == v1beta1.CanaryStepStateInit, prefix+".indexMovesOnlyFromReadyByOne")
+		// the persisted cursor does not fabricate a step-jump request: nextStepIndex follows the new current step
+		verifrt.Assert(post.NextStepIndex == util.NextBatchIndex(r, post.CurrentStepIndex), prefix+".advanceLeavesNoJumpRequestBehind")
 	}
 	if preS == postS {
 		// C07: a wait that no watch event will end comes with a wake-up in the future — the grace wait of the
@@ -76,7 +78,10 @@ func c02CheckStep(prefix string, r *v1beta1.Rollout, pre, post *v1beta1.CommonSt
 			verifrt.Assert(recheck != nil && recheck.After(time.Now()), "C07.step.trafficRoutingWaitHasAWakeUp")
 		}
 		if preS == v1beta1.CanaryStepStatePaused && !cleanupPending && pre.CurrentStepIndex >= 1 && pre.CurrentStepIndex <= n && steps[pre.CurrentStepIndex-1].Pause.Duration != nil {
-			verifrt.Assert(recheck != nil && recheck.After(time.Now()), "C07.step.timedPauseHasAWakeUp")
+			// the step stayed paused, i.e. the pause's end (lastUpdateTime + duration) had not passed when the step
+			// looked at the clock; the wake-up is set no earlier than that end
+			end := pre.LastUpdateTime.Add(time.Duration(*steps[pre.CurrentStepIndex-1].Pause.Duration) * time.Second)
+			verifrt.Assert(recheck != nil && !recheck.Before(end), "C07.step.timedPauseHasAWakeUp")
 		}
 		return
 	}
